@@ -380,8 +380,16 @@ def run(tier, seed):
         frontier.append((i, w, []))
     total = Ctx()
     levels = [len(frontier)]
+    # thorough tier: the third level is only expanded below the initial configurations of the quick tier (the closure grows by a factor of about ten per
+    # level; 216 x depth 3 takes hours), all 216 configurations are explored to depth 2
+    quick_inits = initial_configs('quick')
+    deep = {i for i, c in enumerate(inits) if c in quick_inits} if tier != 'quick' else set(range(len(inits)))
     for d in range(depth):
-        shards = chunked(frontier, max(16, len(frontier) // 2)) if len(frontier) > 64 else [[f] for f in frontier]
+        if d >= 2:
+            for f in frontier:
+                if f[0] not in deep:
+                    shutil.rmtree(f[1], ignore_errors=True)
+            frontier = [f for f in frontier if f[0] in deep]
         shards = [[f] for f in frontier]
         _G['seen_keys'] = set(seen)
         _G['last_level'] = (d == depth - 1)
@@ -417,7 +425,7 @@ def run(tier, seed):
               'changed the state' % (len(inits), len(_G['events']))),
         evaluations=ev, distinct_nontrivial=total.counters['nontrivial'],
         states=len(seen), transitions=total.counters['transitions'], traces_validated=total.counters['transitions'], exhaustive=True,
-        bounds={'tier': tier, 'depth': depth, 'initial_configurations': len(inits), 'events': [ev_name(e) for e in _G['events']],
+        bounds={'tier': tier, 'depth': depth, 'initial_configurations': len(inits), 'initial_configurations_expanded_to_full_depth': len(deep), 'events': [ev_name(e) for e in _G['events']],
                 'new_states_per_level': levels, 'fixpoint_reached_within_depth': fixpoint},
         assumptions=['git as installed; global scope isolated through HOME / XDG_CONFIG_HOME; --system scope not explored',
                      'web tool modules imported through the jupyter_server / jinja2 stubs (only their config sub-commands are executed)'],
